@@ -26,6 +26,10 @@ THEOREMS = [
     'CpProofs.C04.C04_finish_is_cursor',
     'CpProofs.C04.C04_init_enough',
     'CpProofs.C04.C04_no_overread',
+    'CpProofs.C04.C04_same_name_wire_order',
+    'CpProofs.C04.C04_zero_parts',
+    'CpProofs.C04.C04_names_field',
+    'CpProofs.C04.C04_names_file',
     'CpProofs.C04.readLines_lines',
     'CpProofs.C04.readLines_content',
     'CpProofs.C04.readHeaders_lines',
@@ -43,9 +47,11 @@ LEVEL_TEXT = ('Proved in Lean for every valid boundary, every preamble without a
               'builds and byte-identical content (spilled <=> longer than maxrambytes) and stops right behind the close '
               'delimiter; the RFC-strength statement is proved false (F7 witness). The reader under the parser is the '
               'cursor that C05 proves SizedReader refines for every fragmentation and buffer size (bridge theorem '
-              'C04_readline_is_cursor); stream offset <= Content-Length from C05. Partial: name/filename/content-type '
-              'extraction, list promotion of same-name parts and the zero-part body are modelled and compared with '
-              'the real code on generated bodies but not covered by theorems; so are bodies without a declared length (F23).')
+              'C04_readline_is_cursor); stream offset <= Content-Length from C05. Also proved: values under one name are the '
+              'parts with that name in wire order; a body without marker line has no parts; name / filename / content type '
+              'are extracted as declared for form-data; name="n"[; filename="f"] with n, f free of quote, backslash, '
+              'semicolon, comma. Partial: other header shapes (escapes, several elements, continuation lines) and the '
+              'composition of the reader bridge with the parser loops are covered by the correspondence run only; so are bodies without a declared length (F23).')
 LEVEL_NOTE = ('Trusted: Lean kernel, the hand models lean/CpModel/Multipart.lean + Reader.lean as validated by the '
               'differential run (POST through in-process WSGI under fragmentation / buffer sizes / thresholds), '
               'tempfile, the harness. httputil.HeaderMap / header_elements / parse_header are modelled without proof.')
